@@ -12,7 +12,7 @@ if [ "${2:-}" = "--tests" ]; then ( cd "$tmp/repo" && go test -vet=off -count=1 
 mkdir -p "$tmp/verif"; cp /verif/known_findings.json "$tmp/verif/"
 alarms=0
 for p in $(python3 -c "import json;print(' '.join(c['property_id'] for c in json.load(open('/verif/MANIFEST.json'))['checks']))") ${EXTRA_PROPS:-}; do
-  out=$(/verif/bin/fitcheck -prop "$p" -tier quick -repo "$tmp/repo" -verif "$tmp/verif" 2>&1); rc=$?
+  out=$(${FITCHECK_BIN:-/verif/bin/fitcheck} -prop "$p" -tier quick -repo "$tmp/repo" -verif "$tmp/verif" 2>&1); rc=$?
   if [ $rc -ne 0 ]; then
     alarms=$((alarms+1))
     echo "ALARM $p: $(echo "$out" | grep -c '^VIOLATION')"; echo "$out" | grep -E "^[^ ]*: C[0-9]+: |^ C[0-9]+: " | cut -c1-200 | head -${SHOW:-8}
